@@ -22,10 +22,11 @@ def gen_tables(res):
     src = C.read(os.path.join(C.REPO, "src", "operator-info.in"))
     can = C.read(os.path.join(C.REPO, "src", "canonicalize.rs"))
     xp = C.read(os.path.join(C.REPO, "src", "xpath_functions.rs"))
-    entries = G.parse_opdict(src)
-    text = G.render_opdict(entries, G.phf_set(can, "AMBIGUOUS_OPERATORS"), G.statics(can), G.named_ops(can),
-                           G.phf_set(can, "GLOBAL_ATTRS"), GE.phf_str_set(xp, "MATHML_LEAF_NODES"),
-                           GE.phf_str_set(xp, "MATHML_MODIFIED_NODES"))
+    entries = C.translate(res, "c03-opdict", "src/operator-info.in", lambda: G.parse_opdict(src))
+    sets_ = C.translate(res, "c03-sets", "operator sets and statics of canonicalize.rs / xpath_functions.rs",
+                        lambda: (G.phf_set(can, "AMBIGUOUS_OPERATORS"), G.statics(can), G.named_ops(can), G.phf_set(can, "GLOBAL_ATTRS"),
+                                 GE.phf_str_set(xp, "MATHML_LEAF_NODES"), GE.phf_str_set(xp, "MATHML_MODIFIED_NODES")))
+    text = G.render_opdict(entries, *sets_)
     C.write_if_changed(os.path.join(C.GEN, "OpDict.v"), text)
     ok, log = C.build_harness()
     if not ok:
@@ -851,7 +852,7 @@ def replay(path):
         print("harness build failed", log)
         return 2
     if rep.get("kind") in ("plain-row", "structure"):
-        entries = G.parse_opdict(C.read(os.path.join(C.REPO, "src", "operator-info.in")))
+        entries = C.translate(None, "c03-opdict", "src/operator-info.in", lambda: G.parse_opdict(C.read(os.path.join(C.REPO, "src", "operator-info.in"))))
         d = Dict(entries)
         if rep["stage"] == "set_mathml":
             o = C.one_session([["set_mathml", rep["mathml"]]])["res"][0]
